@@ -48,16 +48,29 @@ static C01_WEIGHTS: &[(u16, u32)] = &[
 ];
 
 fn c01_strategy(tier: Tier) -> BoxedStrategy<Case> {
-    map_case_strategy(MapGen {
+    use proptest::prelude::*;
+    let maps = map_case_strategy(MapGen {
         prop: 1,
         weights: C01_WEIGHTS,
         max_ops: if tier == Tier::Quick { 120 } else { 400 },
         generic_pct: 20,
         plain_pct: 30,
-    })
+    });
+    // HashMap<E, E> over the element-layout family (zero-sized pairs, over-aligned, 400-byte pairs): insert /
+    // remove / get / retain / extract_if / clone against a multiset of ids
+    let lay = lay_case_strategy(LayGen { prop: 1, weights: C10_LAY_WEIGHTS, max_ops: 80, generic_pct: 20 })
+        .prop_map(|mut c| {
+            c.set("coll", 2);
+            c
+        })
+        .boxed();
+    union2(maps, 14, lay, 1)
 }
 
-fn c01_nontrivial(_c: &Case, o: &Outcome) -> bool {
+fn c01_nontrivial(c: &Case, o: &Outcome) -> bool {
+    if c.kind == "lay" {
+        return o.steps >= 6;
+    }
     o.labels & L_REMOVE_PRESENT != 0 && o.labels & STRUCT_LABELS != 0
 }
 
@@ -332,16 +345,35 @@ static C06_WEIGHTS: &[(u16, u32)] = &[
 ];
 
 fn c06_strategy(tier: Tier) -> BoxedStrategy<Case> {
-    table_case_strategy(TableGen {
+    use proptest::prelude::*;
+    let tables = table_case_strategy(TableGen {
         prop: 6,
         weights: C06_WEIGHTS,
         max_ops: if tier == Tier::Quick { 100 } else { 300 },
         generic_pct: 20,
         plain_pct: 30,
-    })
+    });
+    // HashTable over the element-layout family (zero-sized, over-aligned): insert / remove / retain /
+    // extract_if / iteration, and big tables (2^16 elements; several hundred elements under one hash)
+    let lay = lay_case_strategy(LayGen { prop: 6, weights: C10_LAY_WEIGHTS, max_ops: 80, generic_pct: 20 })
+        .prop_map(|mut c| {
+            c.set("coll", 0);
+            c
+        })
+        .boxed();
+    let big = big_case_strategy(6)
+        .prop_map(|mut c| {
+            c.set("coll", 2);
+            c
+        })
+        .boxed();
+    union2(union2(tables, 12, lay, 1), BIG_ONE_IN, big, 1)
 }
 
-fn c06_nontrivial(_c: &Case, o: &Outcome) -> bool {
+fn c06_nontrivial(c: &Case, o: &Outcome) -> bool {
+    if c.kind == "big" || (c.kind == "lay" && o.steps >= 6) {
+        return true;
+    }
     o.labels & (L_REINSERT_VACANT | L_ENTRY_AT_FULL | L_ITER_HASH_LONG) != 0
 }
 
@@ -706,6 +738,8 @@ static C09_SET_WEIGHTS: &[(u16, u32)] = &[
     (st::CLEAR, 1),
 ];
 
+static C09_LAY_WEIGHTS: &[(u16, u32)] = &[(ly::INSERT, 16), (ly::REMOVE, 5), (ly::CLONE_SWAP, 16), (ly::LIFE, 16), (ly::FILL_TO_CAPACITY, 3), (ly::REMOVE_RUN, 4), (ly::CLEAR, 1), (ly::GET, 2)];
+
 fn c09_strategy(tier: Tier) -> BoxedStrategy<Case> {
     let n = if tier == Tier::Quick { 80 } else { 250 };
     union2(
@@ -716,13 +750,20 @@ fn c09_strategy(tier: Tier) -> BoxedStrategy<Case> {
             1,
         ),
         4,
-        union2(set_case_strategy(SetGen { prop: 9, weights: C09_SET_WEIGHTS, max_ops: n, generic_pct: 25, plain_pct: 40 }), BIG_ONE_IN / 5, big_case_strategy(9), 1),
+        union2(
+            union2(set_case_strategy(SetGen { prop: 9, weights: C09_SET_WEIGHTS, max_ops: n, generic_pct: 25, plain_pct: 40 }), BIG_ONE_IN / 5, big_case_strategy(9), 1),
+            2,
+            // element layouts (zero-sized, over-aligned, large): yields counted by next() for iter, into_iter,
+            // into_keys, into_values and drain; iterators advanced and dropped or leaked
+            lay_case_strategy(LayGen { prop: 9, weights: C09_LAY_WEIGHTS, max_ops: n, generic_pct: 25 }),
+            1,
+        ),
         1,
     )
 }
 
 fn c09_nontrivial(c: &Case, o: &Outcome) -> bool {
-    c.kind == "big" || o.labels & (L_ITER_CUT | L_INTOITER_CUT | L_DRAIN_CUT) != 0
+    c.kind == "big" || (c.kind == "lay" && o.steps >= 6) || o.labels & (L_ITER_CUT | L_INTOITER_CUT | L_DRAIN_CUT) != 0
 }
 
 pub static C09: PropDef = PropDef {
@@ -1506,6 +1547,8 @@ static C18_MAP_WEIGHTS: &[(u16, u32)] = &[
     (m::REMOVE_NTH, 6),
     (m::GET_ABSENT, 2),
     (m::DRAIN, 1),
+    // shared iterators only (see c18_strategy): what they yield is a function of the contents
+    (m::ITER, 6),
     (m::RAW_ENTRY, 3),
     (m::RUSTC_ENTRY, 3),
     (m::GET_MANY_MUT, 2),
@@ -1527,6 +1570,7 @@ static C18_TABLE_WEIGHTS: &[(u16, u32)] = &[
     (t::SHRINK_TO_FIT, 2),
     (t::GET_MANY_MUT, 3),
     (t::ITER_HASH, 6),
+    (t::ITER, 5),
     (t::CLONE_SWAP, 1),
     (t::REMOVE_ALL_BUT, 4),
     (t::REMOVE_NTH, 8),
@@ -1544,6 +1588,14 @@ fn c18_strategy(tier: Tier) -> BoxedStrategy<Case> {
     .prop_map(|mut c| {
         c.set("transcript", 1);
         c.set("nodup", 1);
+        // iterators that do not write: iter / keys / values (map), iter (table); which elements a prefix-mutating
+        // iterator touches depends on the iteration order, which legitimately differs between the group widths
+        let (iter_code, kinds): (u16, &[u64]) = if c.kind == "map" { (m::ITER, &[0, 2, 3]) } else { (t::ITER, &[0]) };
+        for op in c.ops.iter_mut() {
+            if op.code == iter_code {
+                op.a[0] = kinds[(op.a[0] % kinds.len() as u64) as usize];
+            }
+        }
         c
     })
     .boxed()
